@@ -345,3 +345,44 @@ Proof.
   apply Forall_app. split; [now apply write_steps_touch|].
   repeat constructor; cbn; intuition congruence.
 Qed.
+
+(** ---- faults while writing the temporary ---- *)
+Lemma fault_untouched : forall s target o j pre suf,
+  otmp o <> target -> prog_fault target o j = pre ++ suf ->
+  read (run s pre) target = read s target.
+Proof.
+  intros s target o j pre suf Hne E. apply read_lookup_eq. apply run_frame.
+  apply (Forall_prefix _ pre suf). rewrite <- E. unfold prog_fault.
+  exact (head_frame (mkop (okind o) (otmp o) (firstn j (odata o))) target Hne).
+Qed.
+
+(** the rename is the last step, and the state it is applied to holds the COMPLETE data in the temporary *)
+Lemma rename_after_full_write : forall s target o,
+  let head := creat (okind o) (otmp o) :: write_steps (otmp o) (odata o) in
+  prog target o = head ++ [SRename (otmp o) target]
+  /\ (run_ok s head = true -> lookup (run s head) (otmp o) = Some (File (odata o))).
+Proof.
+  intros s target o head. split; [reflexivity|]. subst head. cbn [run run_ok].
+  destruct (apply s (creat (okind o) (otmp o))) as [s1|] eqn:E1; [|discriminate]. intros _.
+  destruct (apply_creat _ _ _ _ E1) as [L1 _].
+  destruct (run_write_steps (odata o) s1 (otmp o) [] L1) as (_ & W2 & _). exact W2.
+Qed.
+
+(** a fault at any byte of the write, and a crash at any point of the faulty run: old content, never a prefix *)
+Lemma fault_prefix_of_prog : forall target o j,
+  exists rest, creat (okind o) (otmp o) :: write_steps (otmp o) (odata o) = prog_fault target o j ++ rest.
+Proof.
+  intros target o j. unfold prog_fault. exists (write_steps (otmp o) (skipn j (odata o))).
+  cbn [app]. f_equal. unfold write_steps. rewrite <- map_app. now rewrite firstn_skipn.
+Qed.
+
+Lemma move_fault_untouched : forall s src dst tD j pre suf,
+  tD <> src -> tD <> dst -> move_fault s src dst tD j = pre ++ suf ->
+  read (run s pre) dst = read s dst /\ read (run s pre) src = read s src.
+Proof.
+  intros s src dst tD j pre suf N1 N2 E.
+  assert (F : forall q, q <> tD -> lookup (run s pre) q = lookup s q).
+  { intros q Hq. apply run_frame. apply (Forall_prefix _ pre suf). rewrite <- E. unfold move_fault.
+    destruct (read s src) as [c|]; [|constructor]. now apply move_head_frame. }
+  split; apply read_lookup_eq; apply F; congruence.
+Qed.
